@@ -212,6 +212,9 @@ def worker(args):
         return rec.result()
     for u in range(args["universes"]):
         names = rng.sample(["a", "a-b", "a.b", "a+b", "ab", "b", "a-", "a-b-c"], rng.randint(3, 5))
+        if rng.random() < 0.35:
+            # names whose digit runs order differently as numbers and as strings ("compared segment by segment as strings")
+            names = names[:2] + rng.choice([["sword2", "sword10"], ["a1", "a01", "a2"], ["v9", "v10", "v1"]])
         ents = lab.new_universe(names=names, n_leaves=rng.choice([10, 25, 45]))
         uid = "%s-%d" % (args.get("seed"), u)
         for k in range(args["searches"]):
